@@ -688,7 +688,8 @@ def post_c07(ctx, parsed, res):
                         if ps is None or ps.finish_time is None or ts.start_time < ps.finish_time:
                             ctx.violate("C07", "join_before_taken_branch",
                                         f"{ts.uname} started at {ts.start_time} before taken-branch node {p} "
-                                        f"finished ({ps.finish_time if ps else None})", {})
+                                        f"finished ({ps.finish_time if ps else None})",
+                                        {"join_is_child_of_conditional": term in ctx.children[base][cnode]})
                     ctx.probe("join_ran_after_taken_branch")
                 if ts.starts > 1:
                     ctx.violate("C07", "join_ran_twice", f"{ts.uname}", {})
